@@ -116,8 +116,34 @@ UNIT_BOX_ONLY = ["FunctionG", "FunctionGShifted", "FunctionDiagonalDiscont"]
 # ----------------------------------------------------------------------------------------------------------------
 # building instances from a JSON spec
 # ----------------------------------------------------------------------------------------------------------------
-def build(spec):
-    """A fresh instance (fresh inner instances as well) from a JSON spec."""
+def build(spec, nodes=None):
+    """A fresh instance (fresh inner instances as well) from a JSON spec.  ``nodes`` collects the object graph in pre-order:
+    dict(spec, inst, kids=[node indices of the wrapped Function objects, in constructor order]).  An inner spec
+    {"cls": "same", "tag": t} stands for the object already built for the node that carries "tag": t (one inner function
+    object shared by two wrappers, e.g. FunctionConcatenate([h, FunctionPower(h, 2)]))."""
+    if nodes is None:
+        nodes = []
+    me = dict(spec=spec, inst=None, kids=[])
+    nodes.append(me)
+
+    def sub(s):
+        if s["cls"] == "same":
+            j = [k for k, nd in enumerate(nodes) if nd["spec"].get("tag") == s["tag"]][0]
+            me["kids"].append(j)
+            return nodes[j]["inst"]
+        me["kids"].append(len(nodes))
+        return build(s, nodes)
+    me["inst"] = _construct(spec, sub)
+    return me["inst"]
+
+
+def build_graph(spec):
+    nodes = []
+    build(spec, nodes)
+    return nodes
+
+
+def _construct(spec, build):
     import sparseSpACE.Function as F
     c = spec["cls"]
     if c == "ConstantValue":
@@ -345,7 +371,28 @@ def _quiet(fn, *a):
         return fn(*a)
 
 
-def run_history(case, factory=build):
+# how a wrapper class reaches the Function objects it wraps: through their __call__ (cache of the inner object is used
+# and filled) or through their eval (cache bypassed); read off the eval methods in Function.py
+CALL_STYLE = {"FunctionUQNormal": "call", "FunctionUQWeighted": "call", "FunctionPower": "call", "FunctionPolysPCE": "call",
+              "FunctionInverseTransform": "call", "FunctionConcatenate": "call",
+              "FunctionShift": "eval", "FunctionUQNormal2": "eval", "FunctionCompose": "eval"}
+
+
+def _map_point(spec, p):
+    """the point at which a wrapper evaluates its inner function(s), same floating-point operations as the wrapper"""
+    c = spec["cls"]
+    if c == "FunctionShift":
+        return tuple(float(p[k] + spec["t"][k]) for k in range(len(p)))
+    if c == "FunctionUQNormal":
+        return tuple(float(v) for v in np.asarray(p) * np.asarray(spec["std"]) + np.asarray(spec["mean"]))
+    if c == "FunctionInverseTransform":
+        import scipy.stats
+        return tuple(float(getattr(scipy.stats, kind)(loc=loc, scale=scale).ppf(p[k]))
+                     for k, (kind, loc, scale) in enumerate(spec["dists"]))
+    return tuple(p)
+
+
+def run_history(case, factory=build_graph):
     with np.errstate(all="ignore"):      # overflow to inf inside a test function is a value like any other here
         return _run_history(case, factory)
 
@@ -354,72 +401,138 @@ def _run_history(case, factory):
     out = Outcome()
     spec = case["spec"]
     cname = spec["cls"]
-    pts = [tuple(float(x) for x in p) for p in case["points"]]
     d = spec["d"]
     out.cls(cname, "d=%d" % d)
-    f = factory(spec)
-    ol = f.output_length()
-    # reference: eval on a fresh instance per point (no cache involved, fresh inner instances)
+    nodes = factory(spec)
+    N = len(nodes)
+    names = [nd["spec"]["cls"] for nd in nodes]
+    # points of every object: the pool mapped along the (first) path from the top object
+    npts = len(case["points"])
+    node_pts = [None] * N
+    node_pts[0] = [tuple(float(x) for x in p) for p in case["points"]]
+    for i, nd in enumerate(nodes):
+        for k in nd["kids"]:
+            if node_pts[k] is None:
+                node_pts[k] = [_map_point(nd["spec"], p) for p in node_pts[i]]
+    ols = [nd["inst"].output_length() for nd in nodes]
+    # reference: eval on the corresponding object of a fresh graph per object and point (no cache involved anywhere)
     refs = []
-    for p in pts:
-        r = _as_vec(build(spec).eval(p))
-        if len(r) != ol:
-            out.bad("%s/output-length/%s-eval-returns-%d-values-but-declares-%d" % (SUB_H, cname, len(r), ol),
-                    "%s: eval%s returns %d values, output_length() is %d: no call path can return (n, output_length)"
-                    % (cname, p, len(r), ol))
-            return out
-        refs.append(r)
-    abs_floor = 1e-12 if cname == "GenzOszillatory" else 0.0   # cos() near a zero: absolute error of the argument
+    for i in range(N):
+        refs.append([])
+        for p in node_pts[i]:
+            r = _as_vec(build_graph(spec)[i]["inst"].eval(p))
+            if len(r) != ols[i]:
+                out.bad("%s/output-length/%s-eval-returns-%d-values-but-declares-%d" % (SUB_H, names[i], len(r), ols[i]),
+                        "%s: eval%s returns %d values, output_length() is %d: no call path can return (n, output_length)"
+                        % (names[i], p, len(r), ols[i]))
+                return out
+            refs[i].append(r)
+    # absolute floor of the comparison: GenzOszillatory (cos near a zero) and wrappers that combine cached inner values
+    # (a value cached by the vectorised path may differ by an ulp from the scalar one): 1e-12 * largest value underneath
+    below = [[1.0 if names[i] == "GenzOszillatory" else 0.0 for _ in range(npts)] for i in range(N)]
+    for i in reversed(range(N)):
+        for k in nodes[i]["kids"]:
+            for j in range(npts):
+                below[i][j] = max(below[i][j], below[k][j], float(np.max(np.abs(refs[k][j]))) if np.all(np.isfinite(refs[k][j])) else 0.0)
+    state = dict(maxdev=0.0)
 
-    def differs(got, want):
+    def differs(got, want, floor):
         # tolerance: 1e-12 relative (rounding between the scalar and the numpy implementation is <= a few ulp; measured
-        # maximum on the unchanged tree 1.1e-15); identical non-finite values (overflow in both paths) agree
+        # maximum on the unchanged tree 3.6e-15); identical non-finite values (overflow in both paths) agree
         with np.errstate(invalid="ignore"):
-            ok = (got == want) | (np.isnan(got) & np.isnan(want)) | (np.abs(got - want) <= 1e-12 * np.abs(want) + abs_floor)
+            ok = (got == want) | (np.isnan(got) & np.isnan(want)) | (np.abs(got - want) <= 1e-12 * np.abs(want) + 1e-12 * floor)
+            r = np.abs(got - want) / (np.abs(want) + floor + 1e-300)
+        if np.all(ok):
+            r = r[np.isfinite(r)]
+            if r.size:
+                state["maxdev"] = max(state["maxdev"], float(np.max(r)))
         return not np.all(ok)
 
-    def reldev(got, want):
-        with np.errstate(invalid="ignore", divide="ignore"):
-            r = np.abs(got - want) / (np.abs(want) + abs_floor * 1e12 + 1e-300)
-        r = r[np.isfinite(r)]
-        return float(np.max(r)) if r.size else 0.0
-
-    if not all(np.all(np.isfinite(r)) for r in refs):
+    if not all(np.all(np.isfinite(r)) for rr in refs for r in rr):
         out.cls("non-finite-value")
-    def cause(involved, default):
+    if N > 1:
+        out.cls("objects=%d" % min(N, 4))
+    allkids = [k for nd in nodes for k in nd["kids"]]
+    if len(allkids) != len(set(allkids)):
+        out.cls("shared-inner-object")
+    if any(nodes[k]["kids"] for k in allkids):
+        out.cls("nested-wrapper")
+
+    def cause(i, involved, default):
         # FunctionDiagonalDiscont.eval uses the builtin sum(): compensated for a tuple of floats, plain for an ndarray row
-        if cname == "FunctionDiagonalDiscont" and any((sum(q) < 1) != (_add(q) < 1) for q in involved):
+        if names[i] == "FunctionDiagonalDiscont" and any((sum(q) < 1) != (_add(q) < 1) for q in involved):
             return "FunctionDiagonalDiscont-builtin-sum-rounds-differently-for-float-tuple-and-ndarray-row"
         return default
 
-    maxdev = 0.0
-    seen = set()          # model: distinct points passed to __call__ since the last reset
-    caching = True
-    hit_batch = resets = evals_after_reset = 0
-    pending_reset = False
-    for i, op in enumerate(case["ops"]):
+    # model: per object the distinct points passed to __call__ since its last reset (directly or by a wrapper)
+    seen = [set() for _ in range(N)]
+    caching = [True] * N
+    touched = [set() for _ in range(N)]      # pool indices the harness evaluated at this object while its caching is off
+
+    def model_eval(i, j):
+        style = CALL_STYLE.get(names[i])
+        for k in nodes[i]["kids"]:
+            if style == "call":
+                model_single(k, j)
+            else:
+                model_eval(k, j)
+
+    def model_single(i, j):
+        p = node_pts[i][j]
+        if caching[i] and p in seen[i]:
+            return
+        model_eval(i, j)
+        if caching[i]:
+            seen[i].add(p)
+
+    def do_single(i, j, form, tag, recheck=False, mutate=False):
+        f, p, want = nodes[i]["inst"], node_pts[i][j], refs[i][j]
+        arg = p if form == "t" else (list(p) if form == "l" else np.array(p))
+        was_cached = caching[i] and p in seen[i]
+        got = f(arg)
+        if [float(x) for x in arg] != list(p):
+            out.bad(SUB_H + "/arguments-mutated/single", "%s: the point passed in was modified: %s -> %s" % (tag, p, list(arg)))
+        if np.shape(got) != (ols[i],):
+            out.bad(SUB_H + "/shape/single", "%s: shape %s, expected (%d,)" % (tag, np.shape(got), ols[i]))
+        elif differs(np.asarray(got, float), want, below[i][j]):
+            kind = ("recheck-" if recheck else "single-") + ("cached" if was_cached else ("fresh" if caching[i] else "uncached"))
+            out.bad(SUB_H + "/value/" + cause(i, [p], kind), "%s: %s%s=%s, fresh eval=%s"
+                    % (tag, names[i], p, np.asarray(got).tolist(), want.tolist()))
+        elif mutate and isinstance(got, np.ndarray) and got.flags.writeable:
+            got *= 2.0          # what callers do (value -= ... in spatiallyAdaptiveSingleDimension2): must not reach the cache
+            got += 1.0
+            out.cls("returned-single-value-modified-by-caller")
+        model_single(i, j)
+        if was_cached and not recheck:
+            out.cls("single-cache-hit")
+
+    hit_batch = resets = evals_after_reset = inner_ops = 0
+    pending_reset = [False] * N
+
+    def evaluated(i):
+        nonlocal evals_after_reset
+        if pending_reset[i]:
+            evals_after_reset += 1
+            pending_reset[i] = False
+
+    for n_op, op in enumerate(case["ops"]):
         kind = op[0]
-        tag = "op %d %s" % (i, op)
+        tag = "op %d %s" % (n_op, op)
+        sel = {"single": 3, "batch": 3, "vec2": 2, "vec3": 2, "reset": 1, "deact": 1}[kind]
+        i = (op[sel] if len(op) > sel else 0) % N
+        f = nodes[i]["inst"]
+        pts, ol = node_pts[i], ols[i]
+        tag += " on object %d (%s)" % (i, names[i])
+        if i:
+            inner_ops += 1
         if kind == "single":
-            p = pts[op[1] % len(pts)]
-            want = refs[op[1] % len(pts)]
-            arg = p if op[2] == "t" else (list(p) if op[2] == "l" else np.array(p))
-            was_cached = p in seen
-            got = f(arg)
-            if [float(x) for x in arg] != list(p):
-                out.bad(SUB_H + "/arguments-mutated/single", "%s: the point passed in was modified: %s -> %s" % (tag, p, list(arg)))
-            if np.shape(got) != (ol,):
-                out.bad(SUB_H + "/shape/single", "%s: shape %s, expected (%d,)" % (tag, np.shape(got), ol))
-            elif differs(np.asarray(got, float), want):
-                out.bad(SUB_H + "/value/" + cause([p], "single-%s" % ("cached" if was_cached and caching else "fresh")),
-                        "%s: f(%s)=%s, fresh eval=%s" % (tag, p, got, want))
-            if caching:
-                seen.add(p)
-                if was_cached:
-                    out.cls("single-cache-hit")
-            pending_reset, evals_after_reset = False, evals_after_reset + (1 if pending_reset else 0)
+            j = op[1] % npts
+            do_single(i, j, op[2], tag, mutate=len(op) > 4 and bool(op[4]))
+            if not caching[i]:
+                touched[i].add(j)
+            evaluated(i)
         elif kind == "batch":
-            idx = [j % len(pts) for j in op[1]]
+            idx = [j % npts for j in op[1]]
             plist = [pts[j] for j in idx]
             if op[2] == "t":
                 arg = list(plist)
@@ -427,7 +540,7 @@ def _run_history(case, factory):
                 arg = [list(p) for p in plist]
             else:
                 arg = np.array(plist, dtype=float).reshape(len(plist), d)
-            if any(p in seen for p in plist):
+            if any(p in seen[i] for p in plist):
                 hit_batch += 1
             got = _quiet(f, arg)
             if len(arg) != len(plist) or any([float(x) for x in q] != list(p) for q, p in zip(arg, plist)):
@@ -437,23 +550,25 @@ def _run_history(case, factory):
                 out.bad(SUB_H + "/shape/batch%s" % ("-empty" if not plist else ""),
                         "%s: shape %s, expected (%d, %d)" % (tag, np.shape(got), len(plist), ol))
             elif plist:
-                want = np.array([refs[j] for j in idx])
-                if differs(np.asarray(got, float), want):
-                    out.bad(SUB_H + "/value/" + cause(plist, "batch"), "%s: got %s, fresh eval %s" % (tag, np.asarray(got).tolist(), want.tolist()))
-                else:
-                    maxdev = max(maxdev, reldev(got, want))
+                want = np.array([refs[i][j] for j in idx])
+                floor = np.array([[below[i][j]] for j in idx])
+                if differs(np.asarray(got, float), want, floor):
+                    out.bad(SUB_H + "/value/" + cause(i, plist, "batch"), "%s: got %s, fresh eval %s" % (tag, np.asarray(got).tolist(), want.tolist()))
             if not plist:
                 out.cls("empty-batch")
-            seen.update(plist)
+            for j in idx:
+                model_eval(i, j)
+            seen[i].update(plist)        # the library stores batch results even while caching is off (not asserted then)
             if plist:
-                pending_reset, evals_after_reset = False, evals_after_reset + (1 if pending_reset else 0)
+                evaluated(i)
         elif kind in ("vec2", "vec3"):
             if kind == "vec2":
-                idx = np.array([j % len(pts) for j in op[1]], dtype=int)
+                idx = np.array([j % npts for j in op[1]], dtype=int)
             else:
-                idx = np.array([[j % len(pts) for j in row] for row in op[1]], dtype=int)
-            arr = np.array(pts, dtype=float).reshape(len(pts), d)[idx]
-            want = np.array(refs)[idx]
+                idx = np.array([[j % npts for j in row] for row in op[1]], dtype=int)
+            arr = np.array(pts, dtype=float).reshape(npts, d)[idx]
+            want = np.array(refs[i])[idx]
+            floor = np.array(below[i])[idx][..., None]
             snapshot = arr.copy()
             got = np.asarray(f.eval_vectorized(arr))
             if arr.shape != snapshot.shape or not np.array_equal(arr, snapshot):
@@ -463,26 +578,36 @@ def _run_history(case, factory):
                         % (tag, got.size, arr.shape, ol))
             else:
                 got = got.reshape(want.shape)       # what the callers in GridOperation do
-                if differs(got.astype(float), want):
-                    out.bad(SUB_H + "/value/" + cause([pts[j] for j in idx.ravel()], kind), "%s: eval_vectorized %s, fresh eval %s" % (tag, got.tolist(), want.tolist()))
-                else:
-                    maxdev = max(maxdev, reldev(got, want))
+                if differs(got.astype(float), want, floor):
+                    out.bad(SUB_H + "/value/" + cause(i, [pts[j] for j in idx.ravel()], kind), "%s: eval_vectorized %s, fresh eval %s" % (tag, got.tolist(), want.tolist()))
+            for j in idx.ravel():
+                model_eval(i, int(j))
         elif kind == "reset":
             f.reset_dictionary()
-            seen.clear()
+            seen[i].clear()
             resets += 1
-            pending_reset = True
+            pending_reset[i] = True
         elif kind == "deact":
             f.deactivate_caching()
-            caching = False
+            caching[i] = False
             out.cls("deactivated")
         else:
             raise ValueError(kind)
-        if caching:
-            n = f.get_f_dict_size()
-            if n != len(seen):
-                out.bad(SUB_H + "/counter/differs-from-distinct-points",
-                        "%s: get_f_dict_size()=%d, distinct points since last reset=%d" % (tag, n, len(seen)))
+        # after every operation: every live object is asked again for every point it has cached (a cache hit: exposes a
+        # cache entry corrupted by somebody else) and, while its caching is off, for every point the harness evaluated at it
+        # before (repeated evaluation); then the counters of all objects
+        if not out.violations:
+            for k in range(N):
+                for j in range(npts):
+                    if (caching[k] and node_pts[k][j] in seen[k]) or (not caching[k] and j in touched[k]):
+                        do_single(k, j, "t", "re-check after %s: object %d" % (tag, k), recheck=True)
+        for k in range(N):
+            if caching[k]:
+                n = nodes[k]["inst"].get_f_dict_size()
+                if n != len(seen[k]):
+                    out.bad(SUB_H + "/counter/differs-from-distinct-points",
+                            "after %s: object %d (%s).get_f_dict_size()=%d, distinct points evaluated since its last reset=%d"
+                            % (tag, k, names[k], n, len(seen[k])))
         if out.violations:
             break
     out.nontrivial = hit_batch >= 1 and evals_after_reset >= 1
@@ -490,7 +615,9 @@ def _run_history(case, factory):
         out.cls("batch-with-seen-point")
     if resets:
         out.cls("reset")
-    out.info = dict(max_rel_dev_vs_eval=maxdev, max_ops=len(case["ops"]), max_dim=d)
+    if inner_ops:
+        out.cls("op-on-inner-object")
+    out.info = dict(max_rel_dev_vs_eval=state["maxdev"], max_ops=len(case["ops"]), max_dim=d, max_objects=N)
     return out
 
 
@@ -707,6 +834,21 @@ def draw_history_spec(draw):
     lo, hi = DOMAIN_BOX[kind]
     a, b = [lo] * d, [hi] * d
     inner = [draw_leaf(draw, c, d, a, b) for c in inner_cls]
+    # wrappers inside wrappers (only such that evaluate their inner function at the same point) and shared inner objects
+    inner[0]["tag"] = "h"
+    # (FunctionCompose multiplies eval() of its parts by a float, so its parts must have a scalar/ndarray-valued eval:
+    # FunctionPower.eval returns a list and is not generated as a direct part of a composition)
+    deco = "none" if cls == "FunctionCompose" else draw(st.sampled_from(["none", "none", "power", "concat", "shared"]))
+    if deco == "power":            # the wrapped object is itself a wrapper whose eval returns an ndarray / a list
+        inner[0] = dict(cls="FunctionPower", d=d, inner=inner[0], exponent=draw(st.integers(1, 3)))
+    elif deco == "concat" and not scalar_only:
+        inner[0] = dict(cls="FunctionConcatenate", d=d, parts=[inner[0]])
+    elif deco == "shared":         # the same inner object used twice: h and FunctionPower(h, k)
+        shared = dict(cls="FunctionPower", d=d, inner=dict(cls="same", tag="h", d=d), exponent=draw(st.integers(2, 3)))
+        if len(inner) >= 2:
+            inner[-1] = shared
+        elif not scalar_only:
+            inner[0] = dict(cls="FunctionConcatenate", d=d, parts=[inner[0], shared])
     s = dict(cls=cls, d=d)
     if cls == "FunctionShift":
         t = [draw(st.sampled_from([0.0, 0.25, -0.5, 1.0, 0.1])) for _ in range(d)]
@@ -778,20 +920,22 @@ def history_strategy(tier):
         ops = []
         form = st.sampled_from(["t", "t", "t", "t", "l", "a"])
         idx = st.integers(0, npts - 1)
+        # which object of the graph (pre-order index modulo the number of objects; 0 = the outermost one)
+        obj = st.sampled_from([0, 0, 0, 1, 1, 2, 3]) if spec["cls"] in COMPOSITE else st.just(0)
         for _ in range(nops):
             k = draw(st.sampled_from(["single", "single", "single", "batch", "batch", "batch", "batch", "vec2", "vec3",
                                       "reset", "reset", "deact" if draw(st.integers(0, 3)) == 0 else "single"]))
             if k == "single":
-                ops.append([k, draw(idx), draw(form)])
+                ops.append([k, draw(idx), draw(form), draw(obj), draw(st.sampled_from([0, 0, 1]))])
             elif k == "batch":
-                ops.append([k, draw(st.lists(idx, min_size=0, max_size=8)), draw(form)])
+                ops.append([k, draw(st.lists(idx, min_size=0, max_size=8)), draw(form), draw(obj)])
             elif k == "vec2":
-                ops.append([k, draw(st.lists(idx, min_size=1, max_size=8))])
+                ops.append([k, draw(st.lists(idx, min_size=1, max_size=8)), draw(obj)])
             elif k == "vec3":
                 rows, cols = draw(st.integers(1, 3)), draw(st.integers(1, 3))
-                ops.append([k, [[draw(idx) for _ in range(cols)] for _ in range(rows)]])
+                ops.append([k, [[draw(idx) for _ in range(cols)] for _ in range(rows)], draw(obj)])
             else:
-                ops.append([k])
+                ops.append([k, draw(obj)])
         return dict(spec=spec, points=points, ops=ops)
     return s()
 
@@ -895,6 +1039,20 @@ def history_fixed():
         dict(spec=dict(cls="GenzC0", d=2, coeffs=[1.0, 2.0], midpoint=[0.5, 0.5]), points=pts,
              ops=[["single", 0, "t"], ["deact"], ["single", 0, "t"], ["single", 1, "t"], ["batch", [1, 2], "t"], ["reset"],
                   ["single", 2, "t"]]),
+        # wrappers and the objects they wrap take part in one history (ops carry the object index; 0 = outermost):
+        # inner function batch-evaluated, then used through FunctionPower; the same with caching off; across a reset
+        dict(spec=dict(cls="FunctionPower", d=2, exponent=2, inner=lin), points=pts,
+             ops=[["batch", [0, 1], "t", 1], ["single", 0, "t", 0, 0], ["single", 0, "t", 1, 1], ["batch", [0, 1, 2], "t", 0],
+                  ["reset", 0], ["single", 0, "t", 0, 1], ["single", 1, "t", 0, 0]]),
+        dict(spec=dict(cls="FunctionPower", d=2, exponent=3, inner=lin), points=pts,
+             ops=[["batch", [0, 1, 2], "t", 1], ["deact", 0], ["single", 0, "t", 0, 0], ["single", 0, "t", 0, 0], ["single", 1, "a", 0, 1],
+                  ["single", 0, "t", 0, 0]]),
+        # one inner object (whose eval returns an ndarray) shared by two wrappers: FunctionConcatenate([h, FunctionPower(h, 2)])
+        dict(spec=dict(cls="FunctionConcatenate", d=2, parts=[
+            dict(cls="FunctionConcatenate", d=2, tag="h", parts=[lin, dict(cls="GenzC0", d=2, coeffs=[1.0, 2.0], midpoint=[0.5, 0.5])]),
+            dict(cls="FunctionPower", d=2, exponent=2, inner=dict(cls="same", tag="h", d=2))]), points=pts,
+             ops=[["single", 0, "t", 0, 1], ["single", 0, "t", 0, 0], ["reset", 0], ["single", 0, "t", 0, 0], ["batch", [0, 1], "t", 4],
+                  ["single", 1, "t", 0, 0], ["vec2", [0, 1, 2], 0]]),
         # a plain non-trivial history
         dict(spec=lin, points=pts, ops=[["single", 0, "t"], ["batch", [0, 1, 1], "t"], ["reset"], ["batch", [2, 0], "t"],
                                         ["single", 2, "t"], ["vec2", [0, 1, 2]], ["vec3", [[0, 1], [2, 2]]]]),
@@ -943,18 +1101,40 @@ def selftest():
 
     # ... and the oracle rejects corrupted ones: a stale cache entry, a wrong vectorised override, a wrong antiderivative
     def stale(spec):
-        f = build(spec)
-        f.f_dict[(0.5, 0.5)] = 123.0
-        return f
+        g = build_graph(spec)
+        g[0]["inst"].f_dict[(0.5, 0.5)] = 123.0
+        return g
     o = run_history(case, factory=stale)
     assert o.violations, "stale cache entry not rejected"
 
     def badvec(spec):
-        f = build(spec)
+        g = build_graph(spec)
+        f = g[0]["inst"]
         f.eval_vectorized = lambda c: np.prod(c * f.coeffs, axis=-1) + 1e-9
-        return f
+        return g
     o = run_history(case, factory=badvec)
     assert any("/value/" in sig for sig, _ in o.violations), "wrong vectorised implementation not rejected"
+
+    # a wrapper that powers the ndarray entry of its inner function's cache in place must be rejected at the inner object
+    pcase = [c for c in history_fixed() if c["spec"]["cls"] == "FunctionPower"][0]
+    assert not run_history(pcase).violations
+
+    def corrupting(spec):
+        g = build_graph(spec)
+        w, h = g[0]["inst"], g[1]["inst"]
+        orig = w.eval
+
+        def eval_(coordinates):
+            v = h.f_dict.get(tuple(coordinates))
+            r = orig(coordinates)
+            if isinstance(v, np.ndarray):
+                v **= 2
+            return r
+        w.eval = eval_
+        return g
+    o = run_history(pcase, factory=corrupting)
+    assert any(sig == SUB_H + "/value/recheck-cached" for sig, _ in o.violations), o.violations
+
     good = dict(spec=dict(cls="LambdaFunction", d=1, fn="cos"), a=[0.25], b=[1.5])
     assert not run_integral(good).violations
 
